@@ -27,7 +27,7 @@ def run(ctx: Ctx) -> None:
     from ..kinds import KINDS
     from ..layoutreplay import report as report_layout, run_slices
     quick = ctx.tier == "quick"
-    total = run_slices(ctx, ["A", "E"] if quick else ["A", "B", "C", "D", "E", "F"], {"F": 2}, twins=False)
+    total = run_slices(ctx, ["A", "C", "E"] if quick else ["A", "B", "C", "D", "E", "F"], {"F": 2}, twins=False)
     report_layout(ctx, total, "C01")
     from .. import layoutreplay
     layoutreplay.TYPE_PRED_ALLOWED["on"] = False      # Required[int] is not selected by the predicate `int`: known finding of C17
